@@ -620,7 +620,7 @@ func genC09Ops(rng *rand.Rand, n, depth int, cb bool) (ops []c09Op) {
 }
 
 func genC09(rng *rand.Rand, tier string) (cases []string) {
-	n, exLen := 2600, 3
+	n, exLen := 6000, 3
 	if tier == "thorough" {
 		n, exLen = 150000, 4
 	}
